@@ -1,5 +1,6 @@
 import Bch.Proofs.F64
 import Bch.Proofs.Amount
+import Bch.Proofs.F64Format
 /-
   Property C17 — amounts convert between BCH floats, satoshi integers and text without loss.
 
@@ -13,7 +14,12 @@ import Bch.Proofs.Amount
                                  another float value is equally close the significand of `x` is even, and a
                                  non-zero `q` gives its sign to `x` (IEEE round-to-nearest-even);
   * `roundAway v : ℤ`            the integer nearest to `v`, ties away from zero
-                                 (`roundAway_is_nearest_ties_away` below pins that down).
+                                 (`roundAway_is_nearest_ties_away` below pins that down);
+  * `parseDecimal : String → Option ℚ`   the rational denoted by a string of the exact form
+                                 `-?digits(.digits)?` (both digit groups non-empty), `none` for every other
+                                 string (`parseDecimal_examples` below);
+  * `InIv incl lo hi r`          `lo < r < hi`, or `incl` and `r` is one of the end points — the rounding
+                                 interval of a float, used in the specification of the digit search.
 
   All theorems are unconditional about the *model*; hypotheses are the stated ranges only.
 -/
@@ -275,21 +281,200 @@ example : unitString 7 = "1e7 BCH" ∧ unitString (-11) = "1e-11 BCH" := by deci
 theorem C17_format_suffix (a u : Int) :
     Format a u = formatF (ToUnit a u) (-(u + 8)) ++ " " ++ unitString u := format_eq a u
 
-/-! ## 10. Text: proved fragment
+/-! ## 10. Text
 
-  Intended full theorem (NOT proved here; `formatF` with negative precision is the shortest-round-trip
-  digit search, whose correctness proof is out of reach in this round):
+  `Format a u = FormatFloat(ToUnit a u, 'f', -(u+8)) ++ " " ++ label`.  For `u ≥ -8` the precision is `≤ 0`:
+  precision 0 for the satoshi, negative precision (= shortest digits that round-trip, Go `roundShortest`,
+  printed in `%f` layout) above it.  For `u < -8` the precision is positive (fixed number of decimals).
 
-    for `|a| ≤ 2.1·10^15` and `-8 ≤ u ≤ 12`, `Format a u` is the exact decimal expansion of
-    `a·10^-(u+8)` (no more than `u+8` fractional digits, trailing zeros trimmed) followed by
-    `" " ++ unitString u`;
-    for `u < -8` the text (fixed precision 0 … of `a·10^-(u+8)`) is exact only while
-    `|a|·10^-(u+8) < 2^53` — beyond that the float nearest to the product is printed, which is a documented
-    known finding, not a defect of the model.
-
-  Proved: the precision-0 printer is exact on integer-valued floats, hence the base unit (`u = -8`,
-  "Satoshi") prints exactly the integer for every `|a| < 2^53`.
+  Proved below:
+  * `C17_format` — the full statement of the property: for `|a| ≤ 2.1·10^15` and `-8 ≤ u ≤ 12` the number
+    printed denotes exactly `a / 10^(u+8)`;  `C17_format_wide` — the same for `|a| < 2^52`, `-8 ≤ u ≤ 14`;
+  * `C17_format_subsatoshi` — for `-30 ≤ u < -8` the text denotes exactly `a·10^-(u+8)` as long as that
+    integer is below `2^53`; `C17_format_subsatoshi_float` — in general it denotes exactly the double nearest
+    to that integer; `C17_format_subsatoshi_known_finding` — which beyond `2^53` need not be the integer
+    (documented known finding, not a defect of the model);
+  * the specification of the digit search itself (`shortest_in_interval`, `shortest_minimal`,
+    `shortest_closest`) for every finite positive significand/exponent pair, the identification of its
+    interval with the rounding interval (`rounding_interval`, `rounding_interval_converse`), the layout
+    (`formatF_shortest_layout`) and the round trip for every finite float (`formatF_shortest_roundtrip`).
 -/
+
+/-- what `parseDecimal` accepts and what it returns -/
+theorem parseDecimal_examples :
+    parseDecimal "12.50" = some (25/2) ∧ parseDecimal "-0.001" = some (-1/1000) ∧
+    parseDecimal "21000000" = some 21000000 ∧ parseDecimal "-0" = some 0 ∧
+    parseDecimal "" = none ∧ parseDecimal "." = none ∧ parseDecimal "1." = none ∧ parseDecimal ".5" = none ∧
+    parseDecimal "1e5" = none ∧ parseDecimal "--1" = none ∧ parseDecimal "1.2.3" = none ∧
+    parseDecimal "+1" = none ∧ parseDecimal " 1" = none ∧ parseDecimal "1 " = none ∧ parseDecimal "-" = none := by
+  decide +kernel
+
+/-- `parseDecimal` is by definition: optional `-`, then `digits` or `digits.digits`. -/
+theorem parseDecimal_def (s : String) :
+    parseDecimal s = (match s.toList with
+      | '-' :: cs => (parseUnsigned cs).map (fun v => -v)
+      | cs => parseUnsigned cs) := rfl
+
+/-- **What "denotes" means.**  `parseDecimal s = some v` holds exactly when the characters of `s` are an
+optional `-`, a non-empty group `ip` of the digits `0`–`9` and optionally a `.` followed by a non-empty
+group `fp` of digits (nothing else), and `v = ±(ip + fp / 10^|fp|)` with `ip`, `fp` read in base ten
+(`Nat.ofDigitChars 10`). -/
+theorem parseDecimal_spec (s : String) (v : ℚ) :
+    parseDecimal s = some v ↔
+      ∃ (neg : Bool) (ip : List Char) (fp : Option (List Char)),
+        (∀ c ∈ ip, c.isDigit = true) ∧ ip ≠ [] ∧ (∀ f, fp = some f → (∀ c ∈ f, c.isDigit = true) ∧ f ≠ []) ∧
+        s.toList = (if neg then ['-'] else []) ++
+          (ip ++ (match fp with | none => [] | some f => '.' :: f)) ∧
+        v = (if neg then -1 else 1) *
+          (((Nat.ofDigitChars 10 ip 0 : Nat) : ℚ) +
+            (match fp with | none => 0 | some f => ((Nat.ofDigitChars 10 f 0 : Nat) : ℚ) / 10 ^ f.length)) :=
+  parseDecimal_eq_some_iff s v
+
+/-- Soundness of the digit search: the decimal `N·10^p` returned by `shortest m e` lies in the rounding
+interval of the float `m·2^e` — strictly between the halfway points to the two neighbouring floats
+(`(4m±2)·2^(e-2)`, the lower one `(4m-1)·2^(e-2)` at a binade boundary), the halfway points themselves
+being allowed iff `m` is even.  Every rational in that interval rounds to `m·2^e`
+(`rounding_interval_converse`), so the text round-trips (`formatF_shortest_roundtrip`). -/
+theorem shortest_in_interval (m : Nat) (e : Int) (hm : 0 < m) (hm53 : m < 2^53) (he : -1074 ≤ e) (he2 : e ≤ 971) :
+    InIv (m % 2 == 0) ((shL m e : ℚ) * 2^(e-2)) (((4 * m + 2 : Nat) : ℚ) * 2^(e-2))
+      (((shortest m e).1 : ℚ) * 10 ^ (shortest m e).2) := by
+  obtain ⟨N, p, h, h1, _⟩ := shortest_spec m e hm hm53 he he2
+  rw [h]; exact h1
+
+/-- Minimality: no decimal `n·10^j` with `j` above the returned position (i.e. with fewer significant
+digits) lies in the rounding interval. -/
+theorem shortest_minimal (m : Nat) (e : Int) (hm : 0 < m) (hm53 : m < 2^53) (he : -1074 ≤ e) (he2 : e ≤ 971)
+    (n : Nat) (j : Int)
+    (hn : InIv (m % 2 == 0) ((shL m e : ℚ) * 2^(e-2)) (((4 * m + 2 : Nat) : ℚ) * 2^(e-2)) ((n:ℚ) * 10^j)) :
+    j ≤ (shortest m e).2 := by
+  obtain ⟨N, p, h, _, h2, _⟩ := shortest_spec m e hm hm53 he he2
+  rw [h]; exact h2 n j hn
+
+/-- Selection: among the decimals of the returned position that lie in the interval, the result is closest
+to the float's value, and its last digit is even whenever another one is equally close. -/
+theorem shortest_closest (m : Nat) (e : Int) (hm : 0 < m) (hm53 : m < 2^53) (he : -1074 ≤ e) (he2 : e ≤ 971)
+    (n : Nat)
+    (hn : InIv (m % 2 == 0) ((shL m e : ℚ) * 2^(e-2)) (((4 * m + 2 : Nat) : ℚ) * 2^(e-2))
+      ((n:ℚ) * 10 ^ (shortest m e).2)) :
+    |(m:ℚ) * 2^e - ((shortest m e).1 : ℚ) * 10 ^ (shortest m e).2| ≤ |(m:ℚ) * 2^e - (n:ℚ) * 10 ^ (shortest m e).2| ∧
+    (n ≠ (shortest m e).1 →
+      |(m:ℚ) * 2^e - (n:ℚ) * 10 ^ (shortest m e).2| = |(m:ℚ) * 2^e - ((shortest m e).1 : ℚ) * 10 ^ (shortest m e).2| →
+      (shortest m e).1 % 2 = 0) := by
+  obtain ⟨N, p, h, _, _, h3, h4⟩ := shortest_spec m e hm hm53 he he2
+  rw [h] at hn ⊢
+  exact ⟨h3 n hn, fun hne heq => h4 n hne hn heq⟩
+
+-- non-vacuity: 0.3 = 5404319552844595·2^-54; the search returns 3·10^-1, which lies in the interval
+example : (0:Nat) < 5404319552844595 ∧ 5404319552844595 < 2^53 ∧ (-1074:Int) ≤ -54 ∧ (-54:Int) ≤ 971 ∧
+    shortest 5404319552844595 (-54) = (3, -1) := by decide +kernel
+example : InIv (5404319552844595 % 2 == 0) ((shL 5404319552844595 (-54) : ℚ) * 2^((-54:Int)-2))
+    (((4 * 5404319552844595 + 2 : Nat) : ℚ) * 2^((-54:Int)-2)) ((3:Nat) * 10^(-1:Int)) := by
+  have := shortest_in_interval 5404319552844595 (-54) (by norm_num) (by norm_num) (by norm_num) (by norm_num)
+  rwa [show shortest 5404319552844595 (-54) = (3, -1) by decide +kernel] at this
+
+/-- The interval used by `shortest` is the rounding interval: a rational `q` that rounds to the non-zero
+float `x = ±m·2^e` (not in the top binade) has `|q|` in it, and `x` has the sign of `q`. -/
+theorem rounding_interval (q : ℚ) (x : UInt64) (h : IsRN q x) (hm : (decodeAbs x).1 ≠ 0)
+    (he : (decodeAbs x).2 ≤ 970) :
+    InIv ((decodeAbs x).1 % 2 == 0)
+      ((shL (decodeAbs x).1 (decodeAbs x).2 : ℚ) * 2^((decodeAbs x).2 - 2))
+      (((4 * (decodeAbs x).1 + 2 : Nat) : ℚ) * 2^((decodeAbs x).2 - 2)) |q| ∧
+    q ≠ 0 ∧ isNeg x = decide (q < 0) :=
+  isRN_in_interval q x h hm he
+
+example : (decodeAbs (ToUnit 123456789 0)).1 ≠ 0 ∧ (decodeAbs (ToUnit 123456789 0)).2 ≤ 970 := by
+  decide +kernel
+
+/-- … and conversely every rational in that interval, given the sign of `x`, rounds to `x`. -/
+theorem rounding_interval_converse (x : UInt64) (hx : isFinite x = true) (hm : (decodeAbs x).1 ≠ 0) (r : ℚ)
+    (hr : InIv ((decodeAbs x).1 % 2 == 0)
+      ((shL (decodeAbs x).1 (decodeAbs x).2 : ℚ) * 2^((decodeAbs x).2 - 2))
+      (((4 * (decodeAbs x).1 + 2 : Nat) : ℚ) * 2^((decodeAbs x).2 - 2)) r) :
+    IsRN ((if isNeg x then (-1:ℚ) else 1) * r) x :=
+  in_interval_isRN x hx hm r hr
+
+/-- Layout of the shortest-digits path: for a finite float with non-zero significand and negative
+precision, the text denotes `± N·10^p` with `(N, p) = shortest m e`. -/
+theorem formatF_shortest_layout (x : UInt64) (prec : Int) (hx : isFinite x = true)
+    (hm : (decodeAbs x).1 ≠ 0) (hp : prec < 0) :
+    parseDecimal (formatF x prec) =
+      some ((if isNeg x then (-1:ℚ) else 1) *
+        (((shortest (decodeAbs x).1 (decodeAbs x).2).1 : ℚ) * 10 ^ (shortest (decodeAbs x).1 (decodeAbs x).2).2)) :=
+  formatF_shortest_parse x prec hx hm hp
+
+example : isFinite 0x3fd3333333333333 = true ∧ (decodeAbs 0x3fd3333333333333).1 ≠ 0 ∧
+    formatF 0x3fd3333333333333 (-1) = "0.3" := by decide +kernel
+
+/-- **Round trip of `FormatFloat(x, 'f', -1, 64)`** for every finite float (zeros, subnormals and the top
+binade included): the text is a decimal string whose exact value rounds back to `x`. -/
+theorem formatF_shortest_roundtrip (x : UInt64) (prec : Int) (hx : isFinite x = true) (hp : prec < 0) :
+    ∃ r : ℚ, parseDecimal (formatF x prec) = some r ∧ IsRN r x :=
+  Bch.Proofs.F64.formatF_shortest_roundtrip x prec hx hp
+
+example : isFinite 0x0000000000000001 = true ∧ isFinite 0x7fefffffffffffff = true := by decide
+
+/-- **C17 text.**  For every amount up to the 21-million-coin cap and every unit exponent from the satoshi
+(`-8`) up to `12`, `Format a u` is a decimal string `D`, a space and the unit label, and `D` denotes
+exactly the rational `a / 10^(u+8)`. -/
+theorem C17_format (a u : Int) (ha : |a| ≤ 2100000000000000) (hu1 : -8 ≤ u) (hu2 : u ≤ 12) :
+    ∃ D : String, Format a u = D ++ " " ++ unitString u ∧
+      parseDecimal D = some ((a:ℚ) / (10:ℚ) ^ (u + 8)) :=
+  ⟨formatF (ToUnit a u) (-(u + 8)), format_eq a u,
+    format_number_exact a u (by rw [Int.abs_eq_natAbs] at ha; omega) hu1 (by omega)⟩
+
+example : Format 123456789 0 = "1.23456789" ++ " " ++ unitString 0 ∧
+    parseDecimal "1.23456789" = some ((123456789:ℚ) / (10:ℚ) ^ ((0:Int) + 8)) := by
+  refine ⟨by decide +kernel, ?_⟩
+  rw [show ((123456789:ℚ) / (10:ℚ) ^ ((0:Int) + 8)) = 123456789 / 100000000 by norm_num]
+  decide +kernel
+example : Format (-2100000000000000) 12 = "-0.000021 1e12 BCH" ∧
+    Format 2099999999999999 12 = "0.00002099999999999999 1e12 BCH" ∧
+    Format 2099999999999999 3 = "20999.99999999999 kBCH" ∧ Format 1 6 = "0.00000000000001 MBCH" ∧
+    Format 0 3 = "0 kBCH" := by decide +kernel
+
+/-- The same for every amount below `2^52` and every exponent up to `14` (the range in which the power of
+ten is exact and the decimal `a·10^-(u+8)` is the only multiple of `10^-(u+8)` in the rounding interval). -/
+theorem C17_format_wide (a u : Int) (ha : |a| < 2^52) (hu1 : -8 ≤ u) (hu2 : u ≤ 14) :
+    ∃ D : String, Format a u = D ++ " " ++ unitString u ∧
+      parseDecimal D = some ((a:ℚ) / (10:ℚ) ^ (u + 8)) :=
+  ⟨formatF (ToUnit a u) (-(u + 8)), format_eq a u,
+    format_number_exact a u (by rw [Int.abs_eq_natAbs] at ha; exact_mod_cast ha) hu1 hu2⟩
+
+example : |(4503599627370495 : Int)| < 2^52 := by decide
+
+/-- Units below the satoshi (`-30 ≤ u < -8`): the value `a·10^-(u+8)` is an integer; while it is below
+`2^53` the text (that integer followed by `-(u+8)` zero decimals) denotes it exactly. -/
+theorem C17_format_subsatoshi (a u : Int) (hu1 : -30 ≤ u) (hu2 : u < -8)
+    (hz : |a| * 10 ^ (-(u + 8)).toNat < 2^53) :
+    ∃ D : String, Format a u = D ++ " " ++ unitString u ∧
+      parseDecimal D = some ((a:ℚ) / (10:ℚ) ^ (u + 8)) :=
+  ⟨formatF (ToUnit a u) (-(u + 8)), format_eq a u,
+    format_number_exact_sub a u hu1 hu2 (by rw [Int.abs_eq_natAbs] at hz; exact_mod_cast hz)⟩
+
+example : |(9007199254740 : Int)| * 10 ^ (-((-11 : Int) + 8)).toNat < 2^53 ∧
+    Format 9007199254740 (-11) = "9007199254740000.000 1e-11 BCH" := by decide +kernel
+
+/-- Units below the satoshi, every amount below `2^53`: the printed number is the exact decimal expansion of
+the double `ToUnit a u`, which is the correctly rounded value of `a·10^-(u+8)` (`C17_toUnit_wide`). -/
+theorem C17_format_subsatoshi_float (a u : Int) (ha : |a| < 2^53) (hu1 : -30 ≤ u) (hu2 : u < -8) :
+    ∃ (D : String) (v : ℚ), Format a u = D ++ " " ++ unitString u ∧
+      val (ToUnit a u) = some v ∧ parseDecimal D = some v ∧
+      IsRN ((a:ℚ) / (10:ℚ) ^ (u + 8)) (ToUnit a u) := by
+  have ha' : a.natAbs < 2^53 := by rw [Int.abs_eq_natAbs] at ha; exact_mod_cast ha
+  obtain ⟨v, hv, hp⟩ := format_number_sub_float a u ha' hu1 hu2
+  exact ⟨formatF (ToUnit a u) (-(u + 8)), v, format_eq a u, hv, hp, toUnit_isRN a u ha' hu1 (by omega)⟩
+
+example : |(643088377665511 : Int)| < 2^53 ∧ val (ToUnit 643088377665511 (-11)) ≠ none := by decide +kernel
+
+/-- **Known finding** (not a defect of the model): below the satoshi the bound in `C17_format_subsatoshi`
+is needed.  `643088377665511 · 10^3 ≥ 2^53` is not a double; the nearest double is printed and the text
+does not denote `a·10^3`. -/
+theorem C17_format_subsatoshi_known_finding :
+    Format 643088377665511 (-11) = "643088377665511040.000" ++ " " ++ unitString (-11) ∧
+    parseDecimal "643088377665511040.000" = some 643088377665511040 ∧
+    (643088377665511040 : ℚ) ≠ (643088377665511 : ℚ) / (10:ℚ) ^ ((-11 : Int) + 8) := by
+  refine ⟨by decide +kernel, by decide +kernel, ?_⟩
+  norm_num
 
 /-- `FormatFloat(x, 'f', 0, 64)` of a finite integer-valued float prints that integer. -/
 theorem formatF_integer (x : UInt64) (z : ℤ) (hx : val x = some (z : ℚ)) :
@@ -297,8 +482,8 @@ theorem formatF_integer (x : UInt64) (z : ℤ) (hx : val x = some (z : ℚ)) :
   obtain ⟨h1, h2⟩ := (val_eq_some_iff x z).mp hx
   exact formatF_int x h1 z h2
 
-/-- Partial form of the text theorem: unit `Satoshi` only (`u = -8`); missing: all other units, see the
-comment above. -/
+/-- The satoshi unit in closed form (kept from the earlier round; now a special case of `C17_format`, here
+for the larger range `|a| < 2^53` and with the text given literally). -/
 theorem C17_format_partial (a : Int) (ha : |a| < 2^53) :
     Format a (-8) = toString a ++ " Satoshi" :=
   format_satoshi a (by rw [Int.abs_eq_natAbs] at ha; exact_mod_cast ha)
